@@ -645,6 +645,79 @@ std::string runSources(const Case &c) {
   return "";
 }
 
+
+// ---------------------------------------------------------------- groups mode (C08)
+// differential: Groups::evalArguments over a partition of the arguments == one Handler owning all of them
+rc::Gen<Case> genGroups() {
+  return rc::gen::exec([]() {
+    Case c;
+    Profile pf = profileFor("groups");
+    pf.minArgs = 2;
+    c.cfg = genConfig(pf);
+    if (c.cfg.args.size() < 2) { c.discarded = true; c.discardWhy = "too_few_args"; return c; }
+    // hfEndValues etc. are group level flags; help flags would print through Groups: keep the evaluation flags only
+    // (--endvalues is an argument of ONE handler; a second member defining it is refused, so it is left out here)
+    c.cfg.flags &= F_NO_ABBR;
+    Line base = genValidLine(c.cfg, pf);
+    if (base.empty() || evalModel(c.cfg, base).verdict != ModelResult::ACCEPT) { c.discarded = true; c.discardWhy = "line_not_valid"; return c; }
+    Line line = base;
+    if (pick(45)) {
+      Mutated mu;
+      for (int attempt = 0; attempt < 6 && !mu.ok; ++attempt) mu = mutate(c.cfg, base);
+      if (mu.ok && evalModel(c.cfg, mu.line).verdict == ModelResult::REJECT) { line = mu.line; c.mutation = mu.name; }
+    }
+    // partition: arguments linked by a constraint stay in one member
+    int members = *range<int>(1, 4);
+    std::vector<int> groupOf(c.cfg.args.size(), -1);
+    auto link = [&](int x, int y) { if (groupOf[x] < 0 && groupOf[y] < 0) groupOf[x] = groupOf[y] = *range<int>(0, members - 1); else if (groupOf[x] < 0) groupOf[x] = groupOf[y]; else if (groupOf[y] < 0) groupOf[y] = groupOf[x]; };
+    for (size_t i = 0; i < c.cfg.args.size(); ++i) for (auto &ct : c.cfg.args[i].constraints) link(static_cast<int>(i), ct.second);
+    for (auto &h : c.cfg.hcs) for (size_t k = 1; k < h.args.size(); ++k) link(h.args[0], h.args[k]);
+    for (auto &g : groupOf) if (g < 0) g = *range<int>(0, members - 1);
+    // each relation touches an argument at most once (generator invariant), so linked sets are consistent
+    Variant v0, v1;
+    v0.line = v1.line = line;
+    v0.in.argv = {"prog"};
+    SpellOptions so;
+    for (auto &w : spell(c.cfg, line, so)) v0.in.argv.push_back(w);
+    v1.in = v0.in;
+    v1.in.groupCount = members;
+    v1.in.groupOf = groupOf;
+    v0.note = "single handler";
+    v1.note = "group of " + std::to_string(members);
+    c.vars.push_back(v0);
+    c.vars.push_back(v1);
+    return c;
+  });
+}
+
+std::string runGroups(const Case &c) {
+  auto &st = stats();
+  if (c.discarded) { st.cls("discarded." + c.discardWhy); return ""; }
+  classifyConfig(c.cfg);
+  RealResult single = runReal(c.cfg, c.vars[0].in);
+  RealResult group = runReal(c.cfg, c.vars[1].in);
+  std::string where = (c.mutation.empty() ? std::string("valid line") : "mutation " + c.mutation) + " argv " + argvText(c.vars[0].in.argv) + " partition {";
+  for (int g : c.vars[1].in.groupOf) where += std::to_string(g) + " ";
+  where += "}: ";
+  if (single.setupThrew) return where + "library refused the configuration (single handler): " + single.what;
+  if (group.setupThrew) return where + "library refused the configuration in the group set-up but not stand-alone: " + group.what;
+  if (!single.stdException || !group.stdException) return where + "non-std exception";
+  if (single.threw != group.threw)
+    return where + (single.threw ? "single handler rejects (" + single.what + ") but the group accepts" : "group rejects (" + group.what + ") but the single handler accepts");
+  if (!single.threw) {
+    std::string d = compareStates(c.cfg, single.state, group.state);
+    if (!d.empty()) return where + "group evaluation stores different values: " + d;
+  }
+  // bookkeeping
+  std::set<int> membersWithUsedArg;
+  for (auto &u : c.vars[1].line) if (u.arg >= 0) membersWithUsedArg.insert(c.vars[1].in.groupOf[u.arg]);
+  st.cls(single.threw ? "groups.both_reject" : "groups.both_accept");
+  st.cls("groups.members_" + std::to_string(c.vars[1].in.groupCount));
+  if (!c.mutation.empty() && single.threw) st.cls("groups.enforced." + c.mutation);
+  if (membersWithUsedArg.size() >= 2) st.markNontrivial();
+  return "";
+}
+
 // non-trivial rule for the valid modes is evaluated from the case content
 void markValidNontrivial(const Case &c, const std::string &mode) {
   if (c.discarded || c.vars.empty()) return;
@@ -693,6 +766,8 @@ struct Init {
     f.gen = genFold; f.run = runFold; f.show = showCase; f.parse = parseCase;
     auto &so = addMode<Case>("sources");
     so.gen = genSources; so.run = runSources; so.show = showCase; so.parse = parseCase;
+    auto &g = addMode<Case>("groups");
+    g.gen = genGroups; g.run = runGroups; g.show = showCase; g.parse = parseCase;
     auto &b = addMode<Case>("break");
     b.gen = genBreak; b.run = runBreak; b.show = showCase; b.parse = parseCase;
   }
